@@ -217,6 +217,24 @@ def f_simple_cmp(fns, F):
             raise TranslateError("simple_comparison_expression_cmp: unrecognised step `%s`" % t)
         steps.append(ASTEPS[t])
     F["atom_steps"] = steps
+    pc = text(need(fns, "object_path_component_cmp"))
+    if pc == ["if isinstance(comp1, int) and isinstance(comp2, int) or (isinstance(comp1, str) and isinstance(comp2, str)):\n"
+              "    result = generic_cmp(comp1, comp2)\nelif isinstance(comp1, int):\n    result = -1\nelse:\n    result = 1", "return result"]:
+        F["step_cmp"] = "IndexBeforeKey"
+    elif len(pc) == 2 and pc[1] == "return result" and "generic_cmp(str(comp1), str(comp2))" in pc[0]:
+        F["step_cmp"] = "StepsAsText"          # an index and the key spelt the same compare equal
+    else:
+        raise TranslateError("object_path_component_cmp: unrecognised text")
+    if text(need(fns, "object_path_cmp")) != [
+            "if path1.object_type_name < path2.object_type_name:\n    result = -1\nelif path1.object_type_name > path2.object_type_name:\n"
+            "    result = 1\nelse:\n    path_vals1 = object_path_to_raw_values(path1)\n    path_vals2 = object_path_to_raw_values(path2)\n"
+            "    result = iter_lex_cmp(path_vals1, path_vals2, object_path_component_cmp)", "return result"]:
+        raise TranslateError("object_path_cmp: unrecognised text")
+    if text(need(fns, "object_path_to_raw_values")) != [
+            "for comp in path.property_path:\n    if isinstance(comp, ListObjectPathComponent):\n        yield comp.property_name\n"
+            "        if comp.index == '*' or isinstance(comp.index, int):\n            yield comp.index\n        else:\n"
+            "            yield int(comp.index)\n    else:\n        yield comp.property_name"]:
+        raise TranslateError("object_path_to_raw_values: unrecognised text")
     for name, want in (("comparison_operator_cmp", ["op1_idx = _COMPARISON_OP_ORDER.index(op1)", "op2_idx = _COMPARISON_OP_ORDER.index(op2)",
                                                     "result = generic_cmp(op1_idx, op2_idx)", "return result"]),):
         if text(need(fns, name)) != want:
@@ -799,6 +817,8 @@ def translate(repo, _py=None):
         "Definition src_dnf_redistributes_o : bool := %s." % F["dnf_o_recursive"],
         "(* within_cmp: the numbers of seconds compared as they are *)",
         "Definition src_within_cmp : within_kind := %s." % F["within_cmp"],
+        "(* object_path_component_cmp: list indices before keys, never compared as text *)",
+        "Definition src_step_cmp : step_kind := %s." % F["step_cmp"],
         "(* simple_comparison_expression_cmp: the fields compared, in order *)",
         "Definition src_atom_steps : list astep := %s." % coq_list(F["atom_steps"]),
         "(* _dupe_ast (comparison level): what the duplicate of a comparison is built from *)",
